@@ -2092,6 +2092,7 @@ class Parameters(ProperType):
             "arg_names": self.arg_names,
             "variables": [tv.serialize() for tv in self.variables],
             "imprecise_arg_kinds": self.imprecise_arg_kinds,
+            "is_ellipsis_args": self.is_ellipsis_args,
         }
 
     @classmethod
@@ -2105,6 +2106,7 @@ class Parameters(ProperType):
             data["arg_names"],
             variables=[cast(TypeVarLikeType, deserialize_type(v)) for v in data["variables"]],
             imprecise_arg_kinds=data["imprecise_arg_kinds"],
+            is_ellipsis_args=data.get("is_ellipsis_args", False),
         )
 
     def write(self, data: WriteBuffer) -> None:
@@ -2114,6 +2116,7 @@ class Parameters(ProperType):
         write_str_opt_list(data, self.arg_names)
         write_type_list(data, self.variables)
         write_bool(data, self.imprecise_arg_kinds)
+        write_bool(data, self.is_ellipsis_args)
         write_tag(data, END_TAG)
 
     @classmethod
@@ -2126,6 +2129,7 @@ class Parameters(ProperType):
             read_str_opt_list(data),
             variables=read_type_var_likes(data),
             imprecise_arg_kinds=read_bool(data),
+            is_ellipsis_args=read_bool(data),
         )
         assert read_tag(data) == END_TAG
         return ret
